@@ -94,7 +94,9 @@ SigOf(v, mask, K) ==
           [] v = "oldver"   -> [good EXCEPT !.ver = "old"]
 
 \* signature variants are only crossed with the masks on which they can make a difference
-Combos == { <<m, s>> \in MaskVs \X SigVs : s = "good" \/ m \in {"exact", "top", "plus"} }
+Combos == { <<m, s>> \in MaskVs \X SigVs : \/ s = "good"
+                                            \/ m \in {"exact", "top", "plus"}
+                                            \/ (s = "drop" /\ m \in {"oob", "bit63"}) }
 
 Cases == UNION { { [cs |-> cs, qs |-> qs, t |-> t, cv |-> cv, mv |-> ms[1], sv |-> ms[2]] :
                      qs \in Stages, t \in Points, cv \in ChainVs(cs), ms \in Combos } : cs \in Stages }
